@@ -112,3 +112,106 @@ func describeCond(v ssa.Value) string {
 	}
 	return describeValue(unwrap(v))
 }
+
+// resultLeaves enumerates the non-phi values that can reach result #idx of fn, each with the block whose facts hold
+// when that value is chosen (the predecessor the phi edge comes from, or the return's own block).
+type resultLeaf struct {
+	V  ssa.Value
+	At *ssa.BasicBlock
+}
+
+func resultLeaves(fn *ssa.Function, idx int) []resultLeaf {
+	var out []resultLeaf
+	seen := map[ssa.Value]bool{}
+	var walk func(v ssa.Value, at *ssa.BasicBlock)
+	walk = func(v ssa.Value, at *ssa.BasicBlock) {
+		if phi, ok := v.(*ssa.Phi); ok {
+			if seen[phi] {
+				return
+			}
+			seen[phi] = true
+			for i, e := range phi.Edges {
+				walk(e, phi.Block().Preds[i])
+			}
+			return
+		}
+		out = append(out, resultLeaf{v, at})
+	}
+	for _, ret := range returnsOf(fn) {
+		if idx < len(ret.Results) {
+			walk(ret.Results[idx], ret.Block())
+		}
+	}
+	return out
+}
+
+// c02ClosestExact implements C02/C03.closest-exact: a closest-key search returns the key at or BEFORE the one asked
+// for. Its value may become the function's answer only where the found key was compared equal to the search key.
+// Using the value of whatever key happens to be closest (seed c03g: "the closest key is the map of an enclosing name,
+// so it is the nearest enclosing map") hands an exact-name map to names below it, or another name's data to this one.
+func c02ClosestExact(c *Ctx, rule string) {
+	c.Rule(rule, "A2 must-facts in (*rdbdriver).findMapInSortedData: every value that reaches the map-ID result and derives from the VALUE returned by the closest-key search is chosen on an edge dominated by the true outcome of bytes.Equal(found key, search key)")
+	fn := c.Func("db", "(*rdbdriver).findMapInSortedData")
+	c.Examined(fn)
+	var closest []*ssa.Call
+	for _, ci := range callInstrs(fn) {
+		call, ok := ci.(*ssa.Call)
+		if !ok {
+			continue
+		}
+		if sf := call.Common().StaticCallee(); sf != nil && (sf.Name() == "findClosest" || sf.Name() == "FindClosest") {
+			closest = append(closest, call)
+		}
+	}
+	if len(closest) == 0 {
+		c.Undecided(rule, fnName(fn)+"|closest-call", fn.Pos(), "no closest-key search found")
+		return
+	}
+	n := 0
+	for _, leaf := range resultLeaves(fn, 0) {
+		if isNilConst(leaf.V) {
+			continue
+		}
+		var from *ssa.Call
+		for v := range backSlice(leaf.V, nil) {
+			if call, idx := callOfValue(v); call != nil && idx == 1 {
+				for _, cl := range closest {
+					if cl == call {
+						from = cl
+					}
+				}
+			}
+		}
+		if from == nil {
+			continue
+		}
+		n++
+		exact := false
+		for _, f := range factsAt(leaf.At) {
+			eq := isCallToFunc(f.V, "bytes", "Equal")
+			if eq == nil || !f.Truth {
+				continue
+			}
+			hasFound, hasKey := false, false
+			for _, a := range eq.Call.Args {
+				for v := range backSlice(a, nil) {
+					if call, idx := callOfValue(v); call == from && idx == 0 {
+						hasFound = true
+					}
+				}
+				for s := range sourcesOf(a) {
+					for ks := range sourcesOf(from.Call.Args[len(from.Call.Args)-2]) {
+						if s == ks {
+							hasKey = true
+						}
+					}
+				}
+			}
+			if hasFound && hasKey {
+				exact = true
+			}
+		}
+		c.Check(rule, fmt.Sprintf("%s|value-as-answer#%d|under-exact-key-match", fnName(fn), n), exact, leaf.V.Pos(), "the closest key's value is the answer only when the closest key IS the key searched for")
+	}
+	c.Floor(rule, 1)
+}
